@@ -138,6 +138,8 @@ def run(ctx):
     for (p, f, toks, info), r in zip(meta, hres):
         if r.compile_error is not None or "input_error" in r.d:
             continue
+        if r.crash and "timeout" in str(r.crash):
+            continue            # a program whose evaluation does not finish in time says nothing about purity
         if r.crash:
             viol += 1
             if viol <= 6:
